@@ -27,6 +27,7 @@ def check(sc, ctx):
     if ev.ambiguous:
         ctx.excluded += 1
         return
+    routing.side_labels(sc, ev, ctx)
     ctx.label("paired" if sc["paired"] else "single")
     ctx.label("report:" + sc.get("report", "full"))
     if sc["f"].get("demux"):
